@@ -171,6 +171,35 @@ class EvalMixin:
             return "".join(parts)
         return make_text(parts)
 
+    def symstr_of(self, x):
+        """SymStr view of a concrete string (array with the code points stored)."""
+        if isinstance(x, SymStr):
+            return x
+        arr = z3.K(z3.IntSort(), z3.IntVal(0))
+        for k, ch in enumerate(x):
+            arr = z3.Store(arr, k, ord(ch))
+        st = SymStr(arr, len(x))
+        st.alphabet = "".join(sorted(set(x)))
+        return st
+
+    def symstr_concat(self, parts):
+        parts = [self.symstr_of(p) for p in parts if not (isinstance(p, str) and p == "")]
+        if not parts:
+            return ""
+        if len(parts) == 1:
+            return parts[0]
+        i = z3.Int("cc!i")
+        offs = [0]
+        for p in parts:
+            offs.append(offs[-1] + _z(p.length))
+        body = z3.Select(parts[-1].arr, i - offs[-2])
+        for k in range(len(parts) - 2, -1, -1):
+            body = z3.If(i < offs[k + 1], z3.Select(parts[k].arr, i - offs[k]), body)
+        st = SymStr(z3.Lambda([i], body), z3.simplify(offs[-1]) if not isinstance(offs[-1], int) else offs[-1])
+        alph = [getattr(p, "alphabet", None) for p in parts]
+        st.alphabet = "".join(sorted(set("".join(alph)))) if all(a is not None for a in alph) else None
+        return st
+
     def symstr_slice(self, v, lo, hi):
         n = v.length
 
@@ -381,6 +410,8 @@ class EvalMixin:
                 return a + b
             if isinstance(a, str) and isinstance(b, str):
                 return a + b
+            if isinstance(a, (SymStr, str)) and isinstance(b, (SymStr, str)):
+                return self.symstr_concat([a, b])
             if isinstance(a, (str, Opaque)) and isinstance(b, (str, Opaque)):
                 return Opaque("str")
             if isinstance(a, list) and isinstance(b, LazySeq) or isinstance(a, LazySeq) and isinstance(b, list):
@@ -586,6 +617,20 @@ class EvalMixin:
                     return v[slice(idx.start, idx.stop, idx.step)]
                 raise Unsupported("symbolic slice of a concrete sequence")
             raise PyExc("TypeError", "list indices must be integers")
+        if isinstance(v, dict) and isinstance(idx, SymChar):
+            keys = list(v.keys())
+            if not all(isinstance(k, str) and len(k) == 1 for k in keys) or not all(
+                    isinstance(x, str) and len(x) == 1 for x in v.values()):
+                raise Unsupported("character lookup in a non character-to-character map")
+            if idx.alphabet is None or any(ch not in v for ch in idx.alphabet):
+                # the character may be missing from the map: fork on membership
+                inside = z3.Or(*[idx.code == ord(k) for k in keys]) if keys else False
+                if not self.branch(inside):
+                    raise PyExc("KeyError", "character")
+            expr = z3.IntVal(ord(v[keys[-1]]))
+            for k in keys[:-1]:
+                expr = z3.If(idx.code == ord(k), z3.IntVal(ord(v[k])), expr)
+            return SymChar(expr, "".join(sorted(set(v.values()))))
         if isinstance(v, dict):
             if isinstance(idx, EnumVal) and not idx.concrete:
                 idx = self.enum_concretize(idx)
@@ -788,6 +833,9 @@ class EvalMixin:
                 seq = self.iter_remaining(it)
             else:
                 seq = it
+            if isinstance(seq, SymStr):
+                seq = LazySeq(seq.length, lambda i, _s=seq: SymChar(z3.Select(_s.arr, i), getattr(_s, "alphabet", None)),
+                              "chars")
             if isinstance(seq, (SList, LazySeq)):
                 if len(gens) != 1 or g.ifs:
                     raise Unsupported("filter/nested comprehension over symbolic-length sequence "
